@@ -236,6 +236,7 @@ pub fn run(args: &Args) -> i32 {
     let n_exh: u64 = firsts
         .par_iter()
         .map(|&(l1, x1)| {
+            let _g = case_guard(170, (l1 as u64) << 32 | u64::from(x1));
             let mut st = Stats::default();
             let mut n = 0u64;
             let b1: Vec<u8> = (0..l1).map(|i| ((x1 >> i) & 1) as u8).collect();
